@@ -362,6 +362,12 @@ func linHistory(r *kit.Run, prop string, deque bool, idx int64, rng *rand.Rand) 
 	}
 	init := cfg.initial()
 	model := porcupine.Model{Init: func() any { return init }, Step: s.step}
+	if r.Build != "plain" {
+		// in the race-detector build the detector is the oracle; the
+		// (10x slower) linearizability search is left to the plain build
+		r.Count("histories_run_for_the_race_detector_only", 1)
+		return
+	}
 	switch kit.CheckLin(model, ops, 20*time.Second) {
 	case porcupine.Illegal:
 		r.Violation(prop+"/history/not-linearizable", idx, desc, "no sequential execution of the documented container explains this history", nil)
